@@ -69,8 +69,12 @@ func (f *Fill) Call(s *slip.Scope, args slip.List, depth int) (result slip.Objec
 	if v, ok := slip.GetArgsKeyValue(kargs, slip.Symbol(":end")); ok && v != nil {
 		end = getFixnumArg(s, v, ":end", depth)
 	}
-	result = args[0]
-	switch seq := args[0].(type) {
+	seq0 := args[0]
+	if list, ok := seq0.(slip.List); ok && len(list) == 0 {
+		seq0 = nil // an empty list is nil
+	}
+	result = seq0
+	switch seq := seq0.(type) {
 	case nil:
 		if 0 < start || (end != math.MaxInt && 0 < end) {
 			slip.ErrorPanic(s, depth, ":start %d and :end %d are out of bounds for an empty list", start, end)
